@@ -162,6 +162,13 @@ func c03Oracle(in []byte, out []byte) (verdict, rule, detail string) {
 		}
 		return "violation", "tokens-differ", fmt.Sprintf("token #%d: gofmt has … %s …, dst has … %s … (%d vs %d tokens)", i, get(gs, i), get(os, i), len(gs), len(os))
 	}
+	// trailing commas are tokens too: gofmt keeps every line break of the source, so the comma
+	// before a closing delimiter on its own line is the source's; dst must not invent or lose one
+	if gs2, os2 := obs.SyntaxStrict(gt), obs.SyntaxStrict(ot); len(gs2) != len(os2) {
+		if i := obs.FirstDiff(os2, gs2); i >= 0 {
+			return "violation", "trailing-comma-differs", fmt.Sprintf("token #%d: gofmt has %d tokens, dst %d (a comma before a closing delimiter was added or dropped)", i, len(gs2), len(os2))
+		}
+	}
 	it, _ := obs.Scan(in)
 	G, O, I := stripAll(obs.Comments(gt)), stripAll(obs.Comments(ot)), stripAll(obs.Comments(it))
 	if eqStrings(O, G) {
